@@ -1,5 +1,6 @@
 /-
-Kernel-checked enumeration: see `MpycV.Lemmas.RandomEnumDefs` for the definitions and tables.
+Kernel-checked enumeration of all bit streams (definitions, tables and the soundness lemma of the finite
+check are in `MpycV.Lemmas.RandomEnumDefs`).
 -/
 import MpycV.Lemmas.RandomEnumDefs
 
@@ -10,20 +11,27 @@ theorem rbOuts_eq_table : ((List.range 16).all fun i => decide (rbOuts (i + 1) =
   decide +kernel
 
 set_option maxRecDepth 1000000 in
-theorem rbTable_check :
-    ((List.range 16).all fun i => uniformCheck (expand (rbTable (i + 1))) (List.range (i + 1))) = true := by
+theorem rbTable_check : ((List.range 16).all fun i => uniformCheckW (rbTable (i + 1)) (List.range (i + 1))) = true := by
   decide +kernel
 
 set_option maxRecDepth 1000000 in
-theorem ruvOuts_eq_table : ((List.range 16).all fun i => decide (ruvOuts (i + 1) = expand (ruvTable (i + 1)))) = true := by
+theorem ruvOuts_eq_table_le8 : ((List.range 8).all fun i => decide (ruvOuts (i + 1) = expand (ruvTable (i + 1)))) = true := by
   decide +kernel
 
 set_option maxRecDepth 1000000 in
-theorem ruvTable_check :
-    ((List.range 16).all fun i => uniformCheck (expand (ruvTable (i + 1))) (List.range (i + 1))) = true := by
+theorem ruvOuts_eq_table_9_12 : ([9, 10, 11, 12].all fun n => decide (ruvOuts n = expand (ruvTable n))) = true := by
   decide +kernel
 
-theorem rbCheck_le16 {n : Nat} (h1 : 1 ≤ n) (h16 : n ≤ 16) : uniformCheck (rbOuts n) (List.range n) = true := by
+set_option maxRecDepth 1000000 in
+theorem ruvOuts_eq_table_13_16 : ([13, 14, 15, 16].all fun n => decide (ruvOuts n = expand (ruvTable n))) = true := by
+  decide +kernel
+
+set_option maxRecDepth 1000000 in
+theorem ruvTable_check : ((List.range 16).all fun i => uniformCheckW (ruvTable (i + 1)) (List.range (i + 1))) = true := by
+  decide +kernel
+
+theorem rbOuts_table {n : Nat} (h1 : 1 ≤ n) (h16 : n ≤ 16) :
+    rbOuts n = expand (rbTable n) ∧ uniformCheckW (rbTable n) (List.range n) = true := by
   have ha := rbOuts_eq_table
   have hb := rbTable_check
   rw [List.all_eq_true] at ha hb
@@ -32,17 +40,31 @@ theorem rbCheck_le16 {n : Nat} (h1 : 1 ≤ n) (h16 : n ≤ 16) : uniformCheck (r
   have a := ha _ hm
   have b := hb _ hm
   rw [e] at a b
-  rw [of_decide_eq_true a]; exact b
+  exact ⟨of_decide_eq_true a, b⟩
 
-theorem ruvCheck_le16 {n : Nat} (h1 : 1 ≤ n) (h16 : n ≤ 16) : uniformCheck (ruvOuts n) (List.range n) = true := by
-  have ha := ruvOuts_eq_table
+theorem ruvOuts_table {n : Nat} (h1 : 1 ≤ n) (h16 : n ≤ 16) :
+    ruvOuts n = expand (ruvTable n) ∧ uniformCheckW (ruvTable n) (List.range n) = true := by
   have hb := ruvTable_check
-  rw [List.all_eq_true] at ha hb
+  rw [List.all_eq_true] at hb
   have hm : n - 1 ∈ List.range 16 := List.mem_range.2 (by omega)
   have e : n - 1 + 1 = n := by omega
-  have a := ha _ hm
   have b := hb _ hm
-  rw [e] at a b
-  rw [of_decide_eq_true a]; exact b
+  rw [e] at b
+  refine ⟨?_, b⟩
+  by_cases h8 : n ≤ 8
+  · have ha := ruvOuts_eq_table_le8
+    rw [List.all_eq_true] at ha
+    have a := ha (n - 1) (List.mem_range.2 (by omega))
+    rw [e] at a
+    exact of_decide_eq_true a
+  · by_cases h12 : n ≤ 12
+    · have ha := ruvOuts_eq_table_9_12
+      rw [List.all_eq_true] at ha
+      have a := ha n (by simp; omega)
+      exact of_decide_eq_true a
+    · have ha := ruvOuts_eq_table_13_16
+      rw [List.all_eq_true] at ha
+      have a := ha n (by simp; omega)
+      exact of_decide_eq_true a
 
 end MpycV.Random
